@@ -27,28 +27,28 @@ Proof.
   f_equal. apply IH; [exact Hl | intros n Hn; apply Hd; right; exact Hn].
 Qed.
 
-Lemma clear_graph_sound g : docless g -> snd (clear_graph g) = false -> fst (clear_graph g) = g.
+Lemma clear_graph_sound g : docless g -> snd (clear_graph_before_fix g) = false -> fst (clear_graph_before_fix g) = g.
 Proof.
-  destruct g as [gm gd ns]. unfold docless, clear_graph. simpl.
+  destruct g as [gm gd ns]. unfold docless, clear_graph_before_fix. simpl.
   destruct ns as [|n ns]; [reflexivity|]. intros Hd Hf. simpl fst. simpl snd in Hf.
   apply orb_false_iff in Hf. destruct Hf as [He Hdirty]. rewrite Hdirty.
   f_equal. exact (existsb_fst_false (n :: ns) He Hd).
 Qed.
 
 Lemma clear_flag_sound_partial m :
-  Forall docless m -> snd (clear_pass m) = false -> fst (clear_pass m) = m.
+  Forall docless m -> snd (clear_pass_before_fix m) = false -> fst (clear_pass_before_fix m) = m.
 Proof.
-  unfold clear_pass. simpl. induction m as [|g m IH]; intros Hd Hf; [reflexivity|].
+  unfold clear_pass_before_fix. simpl. induction m as [|g m IH]; intros Hd Hf; [reflexivity|].
   simpl in Hf |- *. apply orb_false_iff in Hf. destruct Hf as [Hg Hm].
   inversion Hd; subst. f_equal; [apply clear_graph_sound; assumption | apply IH; assumption].
 Qed.
 
 Lemma clear_graph_idem g :
-  fst (clear_graph (fst (clear_graph g))) = fst (clear_graph g) /\ snd (clear_graph (fst (clear_graph g))) = false.
+  fst (clear_graph_before_fix (fst (clear_graph_before_fix g))) = fst (clear_graph_before_fix g) /\ snd (clear_graph_before_fix (fst (clear_graph_before_fix g))) = false.
 Proof.
-  destruct g as [gm gd ns]. unfold clear_graph at 2 4. simpl cg_nodes.
+  destruct g as [gm gd ns]. unfold clear_graph_before_fix at 2 4. simpl cg_nodes.
   destruct ns as [|n ns]; [simpl; split; reflexivity|].
-  simpl fst. unfold clear_graph. simpl cg_nodes. simpl map.
+  simpl fst. unfold clear_graph_before_fix. simpl cg_nodes. simpl map.
   assert (E : forall l : list (bool * bool), existsb fst (map (fun _ => (false, false)) l) = false)
     by (induction l; simpl; [reflexivity | assumption]).
   assert (M : forall l : list (bool * bool),
@@ -60,21 +60,21 @@ Proof.
 Qed.
 
 Lemma clear_converges m :
-  snd (clear_pass (fst (clear_pass m))) = false /\ fst (clear_pass (fst (clear_pass m))) = fst (clear_pass m).
+  snd (clear_pass_before_fix (fst (clear_pass_before_fix m))) = false /\ fst (clear_pass_before_fix (fst (clear_pass_before_fix m))) = fst (clear_pass_before_fix m).
 Proof.
-  unfold clear_pass. simpl. induction m as [|g m [IH1 IH2]]; [split; reflexivity|].
+  unfold clear_pass_before_fix. simpl. induction m as [|g m [IH1 IH2]]; [split; reflexivity|].
   simpl. destruct (clear_graph_idem g) as [H1 H2]. rewrite H2, IH1, H1, IH2. split; reflexivity.
 Qed.
 
 Definition w_clear : list cgraph := [ {| cg_meta := false; cg_doc := false; cg_nodes := [(false, true)] |} ].
 
-Lemma clear_flag_refuted_witness : snd (clear_pass w_clear) = false /\ fst (clear_pass w_clear) <> w_clear.
+Lemma clear_flag_refuted_witness : snd (clear_pass_before_fix w_clear) = false /\ fst (clear_pass_before_fix w_clear) <> w_clear.
 Proof. split; [reflexivity | vm_compute; intros H; discriminate]. Qed.
 
 (* repaired flag: full statement *)
-Lemma clear_graph_fixed_sound g : snd (clear_graph_fixed g) = false -> fst (clear_graph_fixed g) = g.
+Lemma clear_graph_fixed_sound g : snd (clear_graph g) = false -> fst (clear_graph g) = g.
 Proof.
-  destruct g as [gm gd ns]. unfold clear_graph_fixed, clear_graph. simpl.
+  destruct g as [gm gd ns]. unfold clear_graph, clear_graph_before_fix. simpl.
   destruct ns as [|n ns]; [reflexivity|]. intros Hf.
   apply orb_false_iff in Hf. destruct Hf as [Hf Hd]. apply orb_false_iff in Hf. destruct Hf as [He Hm].
   simpl in Hm, Hd. subst gm gd. simpl. f_equal.
@@ -86,9 +86,9 @@ Proof.
   exact (K (n :: ns) He).
 Qed.
 
-Lemma clear_fixed_flag_sound m : snd (clear_pass_fixed m) = false -> fst (clear_pass_fixed m) = m.
+Lemma clear_fixed_flag_sound m : snd (clear_pass m) = false -> fst (clear_pass m) = m.
 Proof.
-  unfold clear_pass_fixed. simpl. induction m as [|g m IH]; intros Hf; [reflexivity|].
+  unfold clear_pass. simpl. induction m as [|g m IH]; intros Hf; [reflexivity|].
   simpl in Hf |- *. apply orb_false_iff in Hf. destruct Hf as [Hg Hm].
   f_equal; [apply clear_graph_fixed_sound; assumption | apply IH; assumption].
 Qed.
@@ -104,12 +104,12 @@ Definition trimmed (n : dnode) : Prop := trim (d_ins n) = d_ins n.
 Definition dce_inv (g : dgraph) : Prop := Forall trimmed (d_nodes g).
 
 Lemma sweep_spec outs : forall l before l' c,
-  sweep outs before l = (l', c) ->
+  sweep_before_fix outs before l = (l', c) ->
   length l' + c = length l /\ Forall trimmed l' /\ (c = 0 -> l' = map trim_node l).
 Proof.
   induction l as [|n rest IH]; simpl; intros before l' c H.
   - inversion H; subst. split; [reflexivity|]. split; [constructor | reflexivity].
-  - destruct (sweep outs (before ++ [n]) rest) as [rest' c'] eqn:E.
+  - destruct (sweep_before_fix outs (before ++ [n]) rest) as [rest' c'] eqn:E.
     destruct (IH _ _ _ E) as [Hlen [Htr Hz]].
     destruct (forallb _ (d_outs n)); inversion H; subst.
     + split; [lia|]. split; [exact Htr | intros Hc; discriminate].
@@ -124,29 +124,29 @@ Proof.
   destruct n as [i ins outs]. unfold trim_node, trimmed in *. simpl in *. f_equal. assumption.
 Qed.
 
-Lemma dce_inv_est g : dce_inv (fst (dce g)).
+Lemma dce_inv_est g : dce_inv (fst (dce_before_fix g)).
 Proof.
-  unfold dce. destruct (sweep (d_outputs g) [] (d_nodes g)) as [ns c] eqn:E. simpl.
+  unfold dce_before_fix. destruct (sweep_before_fix (d_outputs g) [] (d_nodes g)) as [ns c] eqn:E. simpl.
   apply sweep_spec in E. unfold dce_inv. simpl. tauto.
 Qed.
 
-Lemma dce_size_mono g : dce_size (fst (dce g)) <= dce_size g.
+Lemma dce_size_mono g : dce_size (fst (dce_before_fix g)) <= dce_size g.
 Proof.
-  unfold dce, dce_size. destruct (sweep (d_outputs g) [] (d_nodes g)) as [ns c] eqn:E. simpl.
+  unfold dce_before_fix, dce_size. destruct (sweep_before_fix (d_outputs g) [] (d_nodes g)) as [ns c] eqn:E. simpl.
   apply sweep_spec in E. destruct E as [Hlen _].
   match goal with |- context [filter ?p (d_inits g)] => pose proof (filter_length_le p (d_inits g)) end. lia.
 Qed.
 
-Lemma dce_measure g : snd (dce g) = true -> dce_size (fst (dce g)) < dce_size g.
+Lemma dce_measure g : snd (dce_before_fix g) = true -> dce_size (fst (dce_before_fix g)) < dce_size g.
 Proof.
-  unfold dce, dce_size. destruct (sweep (d_outputs g) [] (d_nodes g)) as [ns c] eqn:E. simpl.
+  unfold dce_before_fix, dce_size. destruct (sweep_before_fix (d_outputs g) [] (d_nodes g)) as [ns c] eqn:E. simpl.
   apply sweep_spec in E. destruct E as [Hlen _]. intros H. apply negb_true_iff in H. apply Nat.eqb_neq in H.
   match goal with |- context [filter ?p (d_inits g)] => pose proof (filter_length_le p (d_inits g)) end. lia.
 Qed.
 
-Lemma dce_flag_sound_partial g : dce_inv g -> snd (dce g) = false -> fst (dce g) = g.
+Lemma dce_flag_sound_partial g : dce_inv g -> snd (dce_before_fix g) = false -> fst (dce_before_fix g) = g.
 Proof.
-  unfold dce, dce_inv. destruct (sweep (d_outputs g) [] (d_nodes g)) as [ns c] eqn:E. simpl.
+  unfold dce_before_fix, dce_inv. destruct (sweep_before_fix (d_outputs g) [] (d_nodes g)) as [ns c] eqn:E. simpl.
   apply sweep_spec in E. destruct E as [Hlen [_ Hz]]. intros Hinv H.
   apply negb_false_iff in H. apply Nat.eqb_eq in H.
   assert (Hc : c = 0) by lia. specialize (Hz Hc). rewrite map_trim_id in Hz by assumption. subst ns.
@@ -156,10 +156,10 @@ Proof.
 Qed.
 
 Lemma dce_converges g :
-  exists k, k <= dce_size g + 1 /\ snd (dce (iterE dgraph dce k g)) = false
-            /\ fst (dce (iterE dgraph dce k g)) = iterE dgraph dce k g.
+  exists k, k <= dce_size g + 1 /\ snd (dce_before_fix (iterE dgraph dce_before_fix k g)) = false
+            /\ fst (dce_before_fix (iterE dgraph dce_before_fix k g)) = iterE dgraph dce_before_fix k g.
 Proof.
-  apply (converge_fixpoint dgraph dce dce_size dce_measure dce_inv dce_inv_est dce_size_mono dce_flag_sound_partial).
+  apply (converge_fixpoint dgraph dce_before_fix dce_size dce_measure dce_inv dce_inv_est dce_size_mono dce_flag_sound_partial).
 Qed.
 
 (* repaired count: full statement *)
@@ -170,20 +170,20 @@ Proof.
   - inversion H. apply Pos.eqb_refl.
 Qed.
 
-Lemma sweep_fixed_zero outs : forall l before l' c, sweep_fixed outs before l = (l', c) -> c = 0 -> l' = l.
+Lemma sweep_fixed_zero outs : forall l before l' c, sweep outs before l = (l', c) -> c = 0 -> l' = l.
 Proof.
   induction l as [|n rest IH]; simpl; intros before l' c H Hc.
   - inversion H; reflexivity.
-  - destruct (sweep_fixed outs (before ++ [n]) rest) as [rest' c'] eqn:E.
+  - destruct (sweep outs (before ++ [n]) rest) as [rest' c'] eqn:E.
     destruct (forallb _ (d_outs n)); inversion H; subst; [discriminate|].
     destruct (ins_eqb (trim (d_ins n)) (d_ins n)) eqn:T; [|discriminate].
     apply ins_eqb_eq in T. rewrite (IH _ _ _ E H2).
     destruct n as [i ins os]. unfold trim_node. simpl in *. rewrite T. reflexivity.
 Qed.
 
-Lemma dce_fixed_flag_sound g : snd (dce_fixed g) = false -> fst (dce_fixed g) = g.
+Lemma dce_fixed_flag_sound g : snd (dce g) = false -> fst (dce g) = g.
 Proof.
-  unfold dce_fixed. destruct (sweep_fixed (d_outputs g) [] (d_nodes g)) as [ns c] eqn:E. simpl. intros H.
+  unfold dce. destruct (sweep (d_outputs g) [] (d_nodes g)) as [ns c] eqn:E. simpl. intros H.
   apply negb_false_iff in H. apply Nat.eqb_eq in H.
   assert (Hc : c = 0) by lia. rewrite (sweep_fixed_zero _ _ _ _ _ E Hc) in *.
   match goal with |- context [filter ?p (d_inits g)] =>
@@ -196,7 +196,7 @@ Definition w_dce : dgraph :=
   {| d_nodes := [ {| d_id := 1; d_ins := [Some 10; None; None]; d_outs := [11] |} ]%positive;
      d_outputs := [11%positive]; d_inputs := [10%positive]; d_inits := [] |}.
 
-Lemma dce_flag_refuted_witness : snd (dce w_dce) = false /\ fst (dce w_dce) <> w_dce.
+Lemma dce_flag_refuted_witness : snd (dce_before_fix w_dce) = false /\ fst (dce_before_fix w_dce) <> w_dce.
 Proof. split; [vm_compute; reflexivity | vm_compute; intros H; discriminate]. Qed.
 
 (* ====================================================================== TopologicalSort flag *)
@@ -232,9 +232,9 @@ Section TopoProofs.
 
   (* PARTIAL: sound when the model has no subgraphs *)
   Lemma topo_flag_sound_partial m :
-    t_subs m = [] -> snd (topo_pass sort m) = false -> fst (topo_pass sort m) = m.
+    t_subs m = [] -> snd (topo_pass_before_fix sort m) = false -> fst (topo_pass_before_fix sort m) = m.
   Proof.
-    destruct m as [mn fs ss]. unfold topo_pass. simpl. intros Hs Hf. subst ss.
+    destruct m as [mn fs ss]. unfold topo_pass_before_fix. simpl. intros Hs Hf. subst ss.
     apply first_diff_false_eq in Hf.
     - apply app_eq_len in Hf; [|symmetry; apply sort_length]. destruct Hf as [H1 H2].
       apply concat_sort_eq in H2. simpl. rewrite <- H1, <- H2. reflexivity.
@@ -244,10 +244,10 @@ Section TopoProofs.
   Hypothesis sort_idem : forall l, sort (sort l) = sort l.
 
   Lemma topo_converges m :
-    snd (topo_pass sort (fst (topo_pass sort m))) = false
-    /\ fst (topo_pass sort (fst (topo_pass sort m))) = fst (topo_pass sort m).
+    snd (topo_pass_before_fix sort (fst (topo_pass_before_fix sort m))) = false
+    /\ fst (topo_pass_before_fix sort (fst (topo_pass_before_fix sort m))) = fst (topo_pass_before_fix sort m).
   Proof.
-    destruct m as [mn fs ss]. unfold topo_pass. simpl.
+    destruct m as [mn fs ss]. unfold topo_pass_before_fix. simpl.
     assert (M : forall l, map sort (map sort l) = map sort l)
       by (induction l; simpl; [reflexivity | rewrite sort_idem; f_equal; assumption]).
     rewrite sort_idem, !M. split; [apply first_diff_refl | reflexivity].
@@ -255,9 +255,9 @@ Section TopoProofs.
 End TopoProofs.
 
 (* repaired flag: full statement, for every sort *)
-Lemma topo_fixed_flag_sound sort m : snd (topo_pass_fixed sort m) = false -> fst (topo_pass_fixed sort m) = m.
+Lemma topo_fixed_flag_sound sort m : snd (topo_pass sort m) = false -> fst (topo_pass sort m) = m.
 Proof.
-  unfold topo_pass_fixed. simpl. intros H. apply negb_false_iff in H.
+  unfold topo_pass. simpl. intros H. apply negb_false_iff in H.
   unfold tmodel_eqb, lists_eqb in H. simpl in H.
   apply andb_prop in H. destruct H as [H H3]. apply andb_prop in H. destruct H as [H1 H2].
   assert (LE : forall a b, list_eqb Pos.eqb a b = true <-> a = b) by (apply list_eqb_eq; apply Pos.eqb_eq).
@@ -272,7 +272,7 @@ Definition w_topo : tmodel := {| t_main := [5%positive]; t_funcs := []; t_subs :
 
 Lemma topo_flag_refuted_witness :
   (forall l, length (w_sort l) = length l) /\ (forall l, w_sort (w_sort l) = w_sort l)
-  /\ snd (topo_pass w_sort w_topo) = false /\ fst (topo_pass w_sort w_topo) <> w_topo.
+  /\ snd (topo_pass_before_fix w_sort w_topo) = false /\ fst (topo_pass_before_fix w_sort w_topo) <> w_topo.
 Proof.
   assert (C : forall l, list_eqb Pos.eqb l [2; 1]%positive = true -> l = [2; 1]%positive).
   { intros l H. apply (list_eqb_eq Pos.eqb Pos.eqb_eq) in H. exact H. }
